@@ -101,6 +101,16 @@ pub fn emit_oracle_fail(what: &str, request: &str) {
     println!("ORACLE\t{}\t{}", what, request);
 }
 
+/// The implementation did not come back from an announced input within the watchdog time: report it
+/// as an oracle failure and end the suite at once (a spinning task cannot be cancelled).
+pub fn hung(request: &str) -> ! {
+    use std::io::Write;
+    println!("ORACLE\timplementation-hung\t{}", request);
+    println!("STAT\tsuite_ended_early_by_watchdog\t1");
+    let _ = std::io::stdout().flush();
+    std::process::exit(0)
+}
+
 /// Run a closure catching panics; the default panic hook is silenced by the caller.
 pub fn catch<T>(f: impl FnOnce() -> T) -> Result<T, String> {
     match std::panic::catch_unwind(std::panic::AssertUnwindSafe(f)) {
